@@ -6,6 +6,7 @@
  *   scale lre lim             (A:C) := (l*A : l*C)                         -> R Are Aim Cre Cim
  *   tohint f forceP forceQ    ec_curve_to_basis_2f_to_hint                 -> R h0 h1 xP xQ | P Q PmQ   (affine x, re im each)
  *   fromhint f h0 h1          ec_curve_to_basis_2f_from_hint (signed h)    -> R xP xQ | P Q PmQ
+ *   fromlast f                same with the hints emitted by the last tohint                 -> R xP xQ | P Q PmQ
  *   jacdiff                   last basis: lift P, Q separately, Jacobian P-Q and P+Q  -> R 1 (PmQ = x(P-Q)) | 2 (= x(P+Q)) | 0
  */
 #include "a9_io.h"
@@ -26,6 +27,7 @@ static void trace_cb(int which, int hint, const fp2_t *x)
 static ec_curve_t cur;
 static ec_basis_t last;
 static int have_last = 0;
+static int last_hint[2] = { 0, 0 };
 
 static void print_curve(void)
 {
@@ -86,13 +88,15 @@ int main(void)
             ec_curve_to_basis_2f_to_hint(&last, &E, f, hint);
             verif_basis_force_fail[0] = verif_basis_force_fail[1] = 0;
             have_last = 1;
+            last_hint[0] = hint[0]; last_hint[1] = hint[1];
             printf("R %x %x", (unsigned)hint[0], (unsigned)hint[1]);
             a9_print_fp2(&tr_x[0]); a9_print_fp2(&tr_x[1]);
             printf(" |"); a9_print_affx(&last.P); a9_print_affx(&last.Q); a9_print_affx(&last.PmQ);
             printf("\n");
-        } else if (!strcmp(t[0], "fromhint") && n == 4) {
+        } else if ((!strcmp(t[0], "fromhint") && n == 4) || (!strcmp(t[0], "fromlast") && n == 2)) {
             int f = (int)a9_parse_long(t[1]);
-            int hint[2] = { (int)a9_parse_long(t[2]), (int)a9_parse_long(t[3]) };
+            int hint[2] = { last_hint[0], last_hint[1] };
+            if (n == 4) { hint[0] = (int)a9_parse_long(t[2]); hint[1] = (int)a9_parse_long(t[3]); }
             ec_curve_t E; ec_curve_init(&E); E.A = cur.A; E.C = cur.C;
             memset(tr_set, 0, sizeof tr_set);
             ec_curve_to_basis_2f_from_hint(&last, &E, f, hint);
